@@ -505,3 +505,77 @@ func VerifC07_RejectedQueryCreation() {
 	W.checkAll("after")
 	vreach("end")
 }
+
+// ---- "closing a finished or closed query again is harmless" — also when its lock bit has
+// meanwhile been handed to another query: for every pair of query kinds (typed, unsafe,
+// cached), A finished by Close or by exhaustion, B opened (receives the recycled bit), A closed
+// again (twice): B still locks the world, structural operations still panic, B ends normally.
+func VerifC07_StaleCloseAfterBitReuse() {
+	W := vShapeFor(0)
+	f := NewFilter1[vPos](W.w)
+	fc := NewFilter1[vPos](W.w).Register()
+	uf := NewUnsafeFilter(W.w, W.id[cA])
+	var a, b vQSlot
+	a.kind, b.kind = vPick("kind-a", 3), vPick("kind-b", 3)
+	open := func(s *vQSlot) {
+		switch s.kind {
+		case 0:
+			s.q1 = f.Query()
+		case 1:
+			s.qu = uf.Query()
+		case 2:
+			s.q1 = fc.Query()
+		}
+	}
+	closeQ := func(s *vQSlot) {
+		if s.kind == 1 {
+			s.qu.Close()
+		} else {
+			s.q1.Close()
+		}
+	}
+	open(&a)
+	if vPick("finish-a-by", 2) == 0 {
+		closeQ(&a)
+	} else {
+		n := 0
+		for n < 2*vNE {
+			more := false
+			if a.kind == 1 {
+				more = a.qu.Next()
+			} else {
+				more = a.q1.Next()
+			}
+			if !more {
+				break
+			}
+			n++
+		}
+	}
+	vcheck("unlocked-after-a", !W.w.IsLocked())
+	open(&b)
+	vcheck("locked-by-b", W.w.IsLocked())
+	vcheck("stale-close-no-panic", !vpanics(func() { closeQ(&a); closeQ(&a) }))
+	vcheck("still-locked-by-b", W.w.IsLocked() && W.w.Stats().Locked)
+	vcheck("structural-op-still-rejected", vpanics(func() { W.w.NewEntity() }))
+	n := 0
+	for n < 2*vNE {
+		more := false
+		if b.kind == 1 {
+			more = b.qu.Next()
+		} else {
+			more = b.q1.Next()
+		}
+		if !more {
+			break
+		}
+		n++
+	}
+	vcheck("b-iterates-and-ends-normally", n > 0 && !W.w.IsLocked())
+	closeQ(&b)
+	closeQ(&a)
+	lk := &W.w.storage.locks
+	vcheck("all-lock-bits-returned", lk.locks.bits == 0 && lk.bitPool.available == lk.bitPool.length)
+	W.checkAll("end")
+	vreach("end")
+}
